@@ -1484,6 +1484,13 @@ func c20Directed() []LCase {
 			mk(`{"openapi":"3.0.3","info":{"title":"t","version":"1"},"paths":{"/a":{"get":{"parameters":[{"name":"q","in":"query","schema":` + sch + `,"example":` + val + `}],` +
 				`"responses":{"200":{"description":"d","content":{"application/json":{"schema":` + sch + `,"example":` + val + `}}}}}}},` +
 				`"components":{"schemas":{"D":` + withVal + `"default":` + val + `},"E":` + withVal + `"example":` + val + `}}}}`)
+			// ... and each position alone (document validation stops at the first error: in the document above
+			// the default of D hides the example of E, the components hide the operation)
+			head := `{"openapi":"3.0.3","info":{"title":"t","version":"1"},`
+			mk(head + `"paths":{"/a":{"get":{"parameters":[{"name":"q","in":"query","schema":` + sch + `,"example":` + val + `}],"responses":{"200":{"description":"d"}}}}}}`)
+			mk(head + `"paths":{"/a":{"get":{"responses":{"200":{"description":"d","content":{"application/json":{"schema":` + sch + `,"example":` + val + `}}}}}}}}`)
+			mk(head + `"paths":{},"components":{"schemas":{"D":` + withVal + `"default":` + val + `}}}}`)
+			mk(head + `"paths":{},"components":{"schemas":{"E":` + withVal + `"example":` + val + `}}}}`)
 		}
 	}
 	// a callback that registers itself again (an event subscription that renews itself), alone and next to a path that uses it
